@@ -46,6 +46,11 @@ def scratch_copy(repo):
 
 
 def apply(m, tmp):
+    if 'base' in m:
+        # a behaviour-preserving refactoring (kept under benign/refactors) applied first, then broken by the edit below:
+        # the normalisations that make the refactoring quiet must not hide the defect
+        if not apply({'patch': os.path.join(HERE, m['base'])}, tmp):
+            return False
     if 'patch' in m:
         r = subprocess.run(['git', 'apply', '--unsafe-paths', '--directory', tmp, m['patch']], cwd='/', stdout=subprocess.PIPE, stderr=subprocess.STDOUT, text=True)
         if r.returncode != 0:
